@@ -207,7 +207,9 @@ def checks (w : World) : Label → Checks
         | .rl b' => b' == b && (w.bus b).rl == .took e && w.lock.isNone && (w.bus b).woke
         | .inst i => (w.inst i).took == some (b, e)
         | .ext => false),
-     ("peBegin: recursion guard must raise here", !recursionTrips w b e)]
+     ("peBegin: recursion guard must raise here", !recursionTrips w b e),
+     ("peBegin: the run-loop task has been cancelled (the cancellation is delivered before it can begin an activation)",
+        match p with | .rl b' => !(w.bus b').cancelReq | _ => true)]
   | .peRecTrip p b e =>
     [("peRecTrip: executor already has an open activation", (w.act p).isNone),
      ("peRecTrip: executor did not take this event from this bus / lock not free",
@@ -215,7 +217,9 @@ def checks (w : World) : Label → Checks
         | .rl b' => b' == b && (w.bus b).rl == .took e && w.lock.isNone && (w.bus b).woke
         | .inst i => (w.inst i).took == some (b, e)
         | .ext => false),
-     ("peRecTrip: recursion guard does not raise here", recursionTrips w b e)]
+     ("peRecTrip: recursion guard does not raise here", recursionTrips w b e),
+     ("peRecTrip: the run-loop task has been cancelled (the cancellation is delivered before it can begin an activation)",
+        match p with | .rl b' => !(w.bus b').cancelReq | _ => true)]
   | .hSched p i b e k =>
     [("hSched: instance id is not the next instance id", i == w.ni),
      ("hSched: unknown event", e < w.ne),
@@ -226,7 +230,9 @@ def checks (w : World) : Label → Checks
      ("hSched: serial bus schedules a handler while another one of the activation is unfinished",
         (w.bus b).parallel || (match w.act p with | some A => A.running.isEmpty | none => false)),
      ("hSched: result of this handler is not pending",
-        match (w.ev e).getRes? b k with | some r => r.status == .pending | none => false)]
+        match (w.ev e).getRes? b k with | some r => r.status == .pending | none => false),
+     ("hSched: the run-loop task has been cancelled (the cancellation is delivered before it can schedule another handler)",
+        match p with | .rl b' => !(w.bus b').cancelReq | _ => true)]
   | .hStart i =>
     [("hStart: unknown instance", i < w.ni),
      ("hStart: instance is not scheduled", (w.inst i).st == .scheduled)]
